@@ -516,6 +516,9 @@ class Expander:
         for p, a in binding.items():
             if isinstance(a, ast.Name) and a.id == p and p not in assigned:
                 continue
+            if isinstance(a, ast.Name) and a.id == p and mode == "return" and getattr(self, "_load_counts", {}).get(p, 0) <= 1:
+                # the caller's variable of the same name is read nowhere but in this call: the helper may go on using it
+                continue
             if _simple(a) and p not in assigned and not (isinstance(a, ast.Name) and a.id in assigned):
                 subst[p] = a
             else:
@@ -759,6 +762,10 @@ class Expander:
                 changed = [False]
                 names = {n.id for n in ast.walk(work) if isinstance(n, ast.Name)} | {a.arg for a in ast.walk(work) if isinstance(a, ast.arg)}
                 self._locals = _local_callables(work)
+                self._load_counts = {}
+                for n_ in ast.walk(work):
+                    if isinstance(n_, ast.Name) and isinstance(n_.ctx, ast.Load):
+                        self._load_counts[n_.id] = self._load_counts.get(n_.id, 0) + 1
                 if any(isinstance(v, ast.Lambda) for v in self._locals.values()):
                     ap = _ApplyLambdas(self._locals)
                     work.body = [ap.visit(st) for st in work.body]
